@@ -232,7 +232,16 @@ static void janet_mark_funcdef(JanetFuncDef *def) {
     janet_gc_mark(def);
     janet_mark_many(def->constants, def->constants_length);
     for (i = 0; i < def->defs_length; ++i) {
-        janet_mark_funcdef(def->defs[i]);
+        /* Nested funcdefs use the native stack like nested values do: take one level of the marking
+         * depth for each while there is one. A funcdef cannot be deferred to the root list, but its
+         * nesting is limited where it is created, and at depth 0 all values below are deferred. */
+        if (depth) {
+            depth--;
+            janet_mark_funcdef(def->defs[i]);
+            depth++;
+        } else {
+            janet_mark_funcdef(def->defs[i]);
+        }
     }
     if (def->source)
         janet_mark_string(def->source);
